@@ -387,6 +387,63 @@ class WriterShapes:
                 path = path + ('[]',)
                 out.append(WFact(path, n.args[0], f, False, 'none', node=node))
                 out += self.of_expr(f, n.args[0], path, node, depth)
+            elif isinstance(n, ast.Call) and isinstance(n.func, ast.Attribute) and n.func.attr in ('extend', 'update') \
+                    and len(n.args) == 1 and not n.keywords:
+                # D['k'].extend(map(g, xs)) / .extend(g(x) for x in xs) ;  D['k'].update(map(g2, xs)) with g2 returning
+                # (key, value) ;  .update((ke, v) for (a, v) in map(g2, xs)) ;  anything else: keys not seen (opaque)
+                t = n.func.value
+                chain = []
+                while isinstance(t, ast.Subscript):
+                    chain.append(t.slice)
+                    t = t.value
+                if not (isinstance(t, ast.Name) and t.id == name):
+                    continue
+                chain.reverse()
+                node = cfg.owner(n)
+                path = prefix
+                for k in chain:
+                    ks = const_str(k)
+                    path = path + (ks if ks is not None else '*',)
+                env = self.prog.env(f)
+                arg = n.args[0]
+                done = False
+
+                def callee_of_map(it):
+                    if isinstance(it, ast.Call) and isinstance(it.func, ast.Name) and it.func.id == 'map' and len(it.args) == 2:
+                        fake = ast.Call(func=it.args[0], args=[ast.Name(id='_', ctx=ast.Load())], keywords=[])
+                        ast.copy_location(fake, it)
+                        ast.fix_missing_locations(fake)
+                        res = env.resolve_call(fake)
+                        if res[0] == 'func':
+                            return res[1]
+                    return None
+                if n.func.attr == 'extend':
+                    g = callee_of_map(arg)
+                    if g is not None:
+                        out.append(WFact(path + ('[]',), arg, f, False, 'none', node=node))
+                        out += [self._rebase(w, path + ('[]',)) for w in self.of_return(g, None, depth + 1)]
+                        done = True
+                    elif isinstance(arg, (ast.GeneratorExp, ast.ListComp)):
+                        out.append(WFact(path + ('[]',), arg.elt, f, False, 'none', node=node))
+                        out += self._comp_value(f, arg, arg.elt, path + ('[]',), node, depth)
+                        done = True
+                else:
+                    g = callee_of_map(arg)
+                    if g is not None:
+                        out.append(WFact(path + ('*',), arg, f, False, 'none', keyexpr=arg, node=node))
+                        out += [self._rebase(w, path + ('*',)) for w in self.of_return(g, 1, depth + 1)]
+                        done = True
+                    elif isinstance(arg, (ast.GeneratorExp, ast.ListComp)) and isinstance(arg.elt, ast.Tuple) \
+                            and len(arg.elt.elts) == 2:
+                        k_, v_ = arg.elt.elts
+                        out.append(WFact(path + ('*',), v_, f, False, 'none', keyexpr=k_, node=node))
+                        out += self._comp_value(f, arg, v_, path + ('*',), node, depth)
+                        done = True
+                    elif isinstance(arg, ast.Dict):
+                        out += self.of_expr(f, arg, path, node, depth)
+                        done = True
+                if not done:
+                    self.opaque.add(path)
         return out
 
     @staticmethod
